@@ -8,10 +8,10 @@ done
 rc=0
 for p in "${pids[@]}"; do wait $p || rc=2; done
 [ $rc -eq 0 ] || { echo "setup: a flavour failed to build"; exit 2; }
-export PYTHONPATH=/verif
+export PYTHONPATH="$(pwd)"
 python3 -c "
-import sys
-sys.path.insert(0, '/verif')
+import sys, os
+sys.path.insert(0, os.getcwd())
 from vf import harnesses
 harnesses.build_all()
 " || exit 2
